@@ -385,6 +385,11 @@ def x7_shims(text, log):
         return "vx_splitn2(%s, %s)" % (m.group(1), m.group(2))
     text = re.sub(r"\b([a-z_][a-z0-9_]*)\.splitn\(2, ('.')\)\.collect\(\)", splitn, text)
 
+    def bsearch(m):
+        log.add("X7:vx_bsearch_key0")
+        return "vx_bsearch_key0(%s, %s)" % (m.group(1), m.group(2))
+    text = re.sub(r"\b((?:vx_languages\(\))|(?:[a-z_][a-z0-9_]*))\.binary_search_by_key\(&([a-z_][a-z0-9_]*), \|t\| t\.0\)", bsearch, text)
+
     def beforefirst(m):
         log.add("X7:vx_before_first")
         return "vx_before_first(%s, %s)" % (m.group(1), m.group(2))
